@@ -53,7 +53,8 @@ RtCfgs(b) ==
     {[f |-> FLeaf("has_a", 300 + 4 * b + 1), amb |-> <<[k |-> "a", v |-> 21]>>, clock |-> 9],
      [f |-> FLeaf("false", 300 + 4 * b + 1), amb |-> <<>>, clock |-> None]}
 
-WForms == {"owned", "ref", "erased"}
+\* erased: `&(dyn ErasedWrapping + Send + Sync)`, erased_local: `&dyn ErasedWrapping`
+WForms == {"owned", "ref", "erased", "erased_local"}
 WfOf(f) == IF f.op = "and" THEN "erased" ELSE IF f.op = "or" THEN "ref"
            ELSE IF f.p = "has_a" THEN "erased" ELSE IF f.p = "false" THEN "ref" ELSE "owned"
 WfOfKind(k) == IF k = "drop" THEN "ref" ELSE IF k = "pass" THEN "erased" ELSE "owned"
@@ -100,7 +101,7 @@ Clocks == {None, MC_ClockT}
 
 Config(own, x, am, cl, rtf, csf, em, entry) ==
     [own |-> own, extent |-> x, ambient |-> am, clock |-> cl, clock2 |-> cl, rtf |-> rtf, csf |-> csf,
-     em |-> em, entry |-> entry]
+     em |-> em, entry |-> entry, env |-> "plain"]
 
 \* A scenario is a record of parameters; ScenSet turns it into configurations.
 \* E: every event shape x one leaf predicate as the effective filter (runtime's, or
@@ -155,13 +156,28 @@ ScenSet(s) ==
                                k \in {"drop", "pass", "prepend"}, w \in WForms}
                       \cup {[op |-> "fnleaf", id |-> 1],
                             [op |-> "and", l |-> ELeaf(1), r |-> [op |-> "erased", t |-> [op |-> "fnleaf", id |-> 2]]]}}
+      \* V: the forms in which the runtime holds its context, clock and rng x events with / without
+      \*    extent x every ambient set x clock x filters that see the ambient properties and the clock
+      [] s.kind = "V" ->
+            {[Config(o, x, am, cl, FLeaf(p, 1), Absent, ELeaf(1), s.entry) EXCEPT !.env = ev,
+                                                                               !.clock2 = IF s.entry \in SpanGuards THEN 9 ELSE cl] :
+                o \in (IF s.entry = "span_macro" THEN {<<>>} ELSE {<<>>, <<KV("a", 1)>>}),
+                x \in (IF s.entry \in SpanGuards THEN {NoExtent} ELSE {NoExtent, Point(5)}),
+                am \in Ambients, cl \in Clocks,
+                p \in (IF s.entry \in SpanGuards THEN {"has_a", "a_is_11"} ELSE {"has_a", "a_is_11", "ext_clock"}),
+                ev \in EnvForms}
+            \cup {[Config(o, x, <<>>, None, FLeaf(p, 1), Absent, ELeaf(1), s.entry) EXCEPT !.env = ev] :
+                o \in (IF s.entry = "span_macro" THEN {<<>>} ELSE {<<>>, <<KV("a", 1)>>}),
+                x \in (IF s.entry \in SpanGuards THEN {NoExtent} ELSE {NoExtent, Point(5)}),
+                p \in {"has_a", "ext_none"} \ (IF s.entry \in SpanGuards THEN {"ext_none"} ELSE {}),
+                ev \in EnvAbsent}
       [] s.kind = "D" ->
             {Config(s.own, Point(5), s.amb, MC_ClockT, FLeaf(s.p, 1), Absent, e, s.entry) :
                 e \in (IF s.d = 3 THEN ET3(0) ELSE ET(s.d, 0))}
 
 MacroEntries == {"macro", "macro_evt", "macro_lvl", "evt_macro"}
 AllEntries == (Pipeline \ SpanGuards) \cup {"direct"}
-NewEntries == {"macro_lvl", "evt_macro", "span_evt", "metric_evt", "rt_with"}
+NewEntries == {"macro_lvl", "evt_macro", "span_evt", "metric_evt", "rt_with", "rt_map"}
 
 ScensG ==
     {[kind |-> "G", p |-> p, wp |-> wp, entry |-> en] :
@@ -183,6 +199,8 @@ ScensR(Entries) ==
 
 ScensW(Entries) == {[kind |-> "W", entry |-> en] : en \in Entries}
 
+ScensV(Entries) == {[kind |-> "V", entry |-> en] : en \in Entries}
+
 ScensD(d, Entries) ==
     \* (new_span! takes its properties at compile time: no own properties there)
     {sc \in {[kind |-> "D", d |-> d, own |-> o, amb |-> am, p |-> p, entry |-> en] :
@@ -200,6 +218,7 @@ ScensFor(w) ==
             \cup ScensE(PredsFew, {"core", "rt_as_emitter"} \cup NewEntries)
             \cup ScensG
             \cup ScensW({"rt", "direct", "macro"})
+            \cup ScensV({"rt", "core", "rt_as_emitter", "macro", "rt_map", "span_guard"})
             \cup ScensF({"true", "false"}, 2, {<<>>}, {"rt", "macro"})
             \cup ScensF({"true", "false", "has_b", "ext_clock"}, 1, {<<>>, <<KV("b", 11)>>}, {"core", "macro_evt"})
             \cup ScensD(2, {"rt", "direct", "macro"})
@@ -209,6 +228,7 @@ ScensFor(w) ==
             ScensE(PredsAll \cup {"ext_empty"}, AllEntries)
             \cup ScensG
             \cup ScensW(AllEntries)
+            \cup ScensV(Pipeline)
             \cup ScensD(1, SpanGuards)
             \cup ScensF({"true", "false", "has_b"}, 2, {<<>>, <<KV("b", 11)>>}, {"rt", "macro", "macro_evt"})
             \cup ScensF(PredsAll, 1, {<<>>, <<KV("b", 11)>>}, {"core", "rt_as_emitter", "macro"})
